@@ -2,7 +2,8 @@
   C20 — when does the svd solver refuse a regularisation subset?  (`SVD::min_subset_x`: the test
   `defect > n_min` and, per null column, the test on its S-norm `s`; model `Svd.minSubsetX`.)
 
-  Same setting and the same CERTIFICATE hypothesis `SvdCert` as `Props/C01/Svd.lean`.  The regularisation
+  Same setting as `Props/C01/Svd.lean` (factors as a parameter, `SvdCert` as hypothesis; restated for
+  the factors `Svd.decompose` returns in `Props/C20/SvdDecompose.lean`).  The regularisation
   list has no repetitions and its indices lie in `1..n` (`Props/C08.lean : C08_minx_is_constrained` proves
   both for the list `LocalNetwork::project_equations` hands over).  `τ` is the threshold of the code:
   `W_tol` for the test `s <= W_tol·‖V_k‖` (`fixed = true`, the code as it is), `0` for the exact test
